@@ -269,6 +269,16 @@ func execCustodianStore(st *State, line string) Result {
 		}
 		res.Tags = append(res.Tags, "fin:"+out)
 		res.Out = out + " " + keys
+		eh0 := crypto.Blake3Hash(extra)
+		if out == "panic" && ss.accepted[fmt.Sprintf("%d:%s", ts, Hex(eh0[:]))] {
+			// observed on the unchanged tree for more than 50 entries: neither validator bounds the count
+			res.Tags = append(res.Tags, fmt.Sprintf("fin:accepted-by-validate-then-panic:entries=%d", c34ChunkCount(extra)))
+		}
+		for k := range before {
+			if !after[k] {
+				fail("record-replaced", "a finalization removed or replaced the stored custodian record "+k[:20])
+			}
+		}
 		if out == "panic" || out == "error" {
 			if len(after) != len(before) {
 				fail("failed-write-left-record", "a finalization that failed changed the custodian records")
@@ -455,6 +465,10 @@ func genCustodianStore(r *Rand, i int, tier string) []string {
 					e.cust = c34Addr(r)
 				}
 			}
+		case 7: // a payee that keeps the spend key the kernel knows but has another view key
+			e := es[r.Intn(len(es))]
+			f := c34Addr(r)
+			e.payee.PrivateViewKey, e.payee.PublicViewKey = f.PrivateViewKey, f.PublicViewKey
 		case 4: // one entry dropped (still >= 7 when m > 7)
 			if len(es) > 7 {
 				es = es[1:]
@@ -529,7 +543,7 @@ func genCustodianStore(r *Rand, i int, tier string) []string {
 		case 0, 1, 2, 3, 4, 5: // a successor: validated (common + kernel), finalized
 			mut := 0
 			if r.Chance(1, 3) {
-				mut = r.Range(1, 6)
+				mut = Pick(r, []int{1, 2, 3, 4, 5, 5, 6, 7, 7})
 			}
 			extra := build(next, prevCust.PrivateSpendKey, mut)
 			if r.Chance(1, 10) { // approval by somebody else
@@ -550,12 +564,20 @@ func genCustodianStore(r *Rand, i int, tier string) []string {
 				gts = ts + config.SnapshotRoundGap*config.SnapshotReferenceThreshold*2 + uint64(r.Range(0, 2))
 			}
 			lines = append(lines, fmt.Sprintf("kval %d %d %d %d %s %s", b2i(!r.Chance(1, 8)), b2i(r.Bool()), ts, gts, sl, Hex(extra)))
+			// kernel-only probes on single-defect variants of the same update (nothing is written)
+			for _, pm := range []int{5, 7, 2} {
+				if r.Chance(1, 2) {
+					lines = append(lines, fmt.Sprintf("kval 1 %d %d %d %s %s", b2i(r.Bool()), ts, ts, nextSalt(), Hex(build(next, prevCust.PrivateSpendKey, pm))))
+				}
+			}
 			if mut != 6 {
 				ln := fmt.Sprintf("fin 0 %d %s %d %s", ts, sl, amount, Hex(extra))
 				lines = append(lines, ln)
 				hist = append(hist, c34Hist{ts, next, ln})
 				sort.Slice(hist, func(a, b int) bool { return hist[a].ts < hist[b].ts })
 				last = ts
+				// the same snapshot validated again once its record is stored (finalized)
+				lines = append(lines, fmt.Sprintf("kval 1 1 %d %d %s %s", ts, ts, sl, Hex(extra)))
 			} else { // an extra the parser refuses: finalization panics, nothing is stored
 				lines = append(lines, fmt.Sprintf("fin 0 %d %s %d %s", ts, sl, amount, Hex(extra)))
 			}
